@@ -71,9 +71,10 @@ def run(ctx):
 
     # ---- oracle 1: every envelope whose wire bytes contain a private payload
     n_bad, gaps, leak_kinds = 0, Counter(), Counter()
+    seen_sig = Counter()
     for lk in leaks:
         kind = palkinds.get(str(lk["tx"]), "?")
-        listed = lambda d: d != "" and d in lk["pal"]
+        listed = lambda d: d != "" and d in (lk["pal"] or [])
         leak_kinds[(lk["kind"], "peer-listed" if listed(lk["peer_did"]) else "peer-unlisted", "auth" if lk["peer_auth"] else "unauth",
                     "holder-listed" if listed(lk["src_did"]) else "holder-unlisted")] += 1
         if lk["kind"] == "pl" and lk["peer_auth"] and listed(lk["peer_did"]):
@@ -91,6 +92,9 @@ def run(ctx):
         else:
             sig, what = "C15:payload-to-unlisted-peer", "payload sent to an authenticated peer whose DID is not on the list"
         n_bad += 1
+        seen_sig[sig] += 1
+        if seen_sig[sig] > 1:
+            continue
         v = by_name.get(lk["scenario"])
         rp = replay_text(ops, header, v["first_op"], v["last_op"]) if v else json.dumps(lk)
         ctx.violation(sig, f"{what}: {json.dumps(lk)[:300]}", f"{sig.split(':')[1]}.jsonl", rp)
@@ -105,6 +109,8 @@ def run(ctx):
         sk[("known" if c["tx_known"] else "unknown", "match" if c["matches"] else "mismatch", "stored" if c["after"] and not c["before"] else "unchanged")] += 1
         if not okc:
             s_bad += 1
+            if s_bad > 1:
+                continue
             v = by_name.get(c["scenario"])
             ctx.violation("C15:payload-store-changed-wrongly", f"payload store after TransactionPayload: {json.dumps(c)}", "payload-store.jsonl",
                           replay_text(ops, header, v["first_op"], c["op"]) if v else json.dumps(c))
@@ -114,12 +120,29 @@ def run(ctx):
             ctx.violation("C15:dag-damaged", f"scenario {v['scenario']}: {v['shrunk'][:3]} {v['invalid_in'][:3]}", "dag-damaged.jsonl",
                           replay_text(ops, header, v["first_op"], v["last_op"]))
 
+    # ---- oracle 3: the authenticator marks a peer authenticated iff its certificate is valid for the host of the resolved NutsComm endpoint
+    a_bad = 0
+    for i, l in enumerate(ops):
+        if '"op":"authn"' not in l[:400]:
+            continue
+        j = json.loads(l)
+        expect_ok = bool(j["cert"] and j["resolve"] and j["parsed"] and j["covers"])
+        got = impl[i] if i < len(impl) else ""
+        got_ok = got.startswith("authn ok") and "auth=true" in got
+        wrong_unauth = (not got_ok) and ("auth=true" in got)
+        if got_ok != expect_ok or wrong_unauth:
+            a_bad += 1
+            if a_bad == 1:
+                sig = "C15:authenticated-without-covering-certificate" if got_ok else "C15:authentication-refused-for-covering-certificate"
+                ctx.violation(sig, f"tlsAuthenticator case {j.get('case')}: {got} but certificate/endpoint facts are {l[:300]}", "authn.jsonl", l)
+    ctx.oblige("oracle:authenticated-iff-certificate-covers-resolved-endpoint-host(impl)", a_bad == 0, f"{a_bad} cases")
+
     # ---- correspondence
     if bad:
         i = bad[0]
         detail = f"first differing line {i}\nop   : {ops[i][:600] if i < len(ops) else None}\nimpl : {impl[i][:1200] if i < len(impl) else None}\nmodel: {model[i][:1200] if i < len(model) else None}"
         ctx.oblige("correspondence:model=impl", False, f"{len(bad)} of {len(impl)} lines differ; " + detail[:900])
-        if n_bad == 0 and s_bad == 0:
+        if n_bad == 0 and s_bad == 0 and a_bad == 0:
             sl = [s for s in slices if s[0] <= i <= s[1]]
             if sl:
                 with open(os.path.join(ctx.replay_dir(), "correspondence.jsonl"), "w") as f:
